@@ -3294,3 +3294,17 @@ Definition hb (from term : N) (ctx : list N) : msg :=
               <| m_context := ctx |> <| m_commit := 3 |>.
 
 End C08Samples.
+
+Theorem reset_drops_reads_all :
+  (forall r t r', reset r t = Ok r' ->
+     r_read_only r' = ro_new (ro_option (r_read_only r)) /\ r_read_states r' = r_read_states r) /\
+  (forall r t l r', become_follower r t l = Ok r' ->
+     r_read_only r' = ro_new (ro_option (r_read_only r)) /\ r_read_states r' = r_read_states r) /\
+  (forall r r', become_candidate r = Ok r' ->
+     r_read_only r' = ro_new (ro_option (r_read_only r)) /\ r_read_states r' = r_read_states r) /\
+  (forall r r', become_leader r = Ok r' ->
+     r_read_only r' = ro_new (ro_option (r_read_only r)) /\ r_read_states r' = r_read_states r).
+Proof.
+  exact (conj reset_drops_reads (conj become_follower_drops_reads
+          (conj become_candidate_drops_reads become_leader_drops_reads))).
+Qed.
